@@ -14,6 +14,7 @@ mod common;
 mod gen;
 mod hist_big;
 mod hist_vec;
+mod lemire_rare;
 mod nat;
 mod par;
 mod rng;
